@@ -28,11 +28,12 @@ CONFIG = {
         "Processor on separately loaded copies (never the Merger's own _get_merge_target_nodes) and ships the "
         "yielded locations and the document after path creation; the judge recomputes the targets the same way "
         "and demands that EVERY matched node holds the policy-defined merge",
-        "Processor.set_value for a Scalar merged into a Scalar target is modelled as 'the value becomes the "
-        "right-hand value' (C03's subject)",
+        "Processor._apply_change for a Scalar merged into a Scalar target is modelled as 'the value of this target "
+        "becomes the right-hand value' (C03's subject)",
     ],
     "assumptions": [
-        "target nodes are pairwise non-nested (paths like ** are outside the generator)",
+        "target nodes are pairwise non-nested (paths like ** are outside the generator) and lie in the left "
+        "document (a target inside the right-hand document - F-C11-5 - is judged, not modelled)",
         "the assumptions of C05",
     ],
 }
@@ -73,13 +74,16 @@ def locate(doc, nc):
     return p + [("I", ref) if isinstance(nc.parent, list) else ("K", ref)]
 
 
-def has_set(x):
-    if docenc.is_set(x):
-        return True
-    if isinstance(x, dict):
-        return any(has_set(v) for v in x.values())
-    if isinstance(x, list):
-        return any(has_set(v) for v in x)
+def inside_rhs(doc, rhs, loc):
+    """the location passes THROUGH the right-hand document object (and goes on)"""
+    cur = doc
+    for t, r in loc:
+        if cur is rhs:
+            return True
+        try:
+            cur = cur[r]
+        except Exception:  # noqa
+            return False
     return False
 
 
@@ -111,20 +115,21 @@ def plan(case):
         ncs = list(proc.get_nodes(p, default_value=rhs))
     except E["YPE"]:
         return "ype", None
-    except Exception:  # noqa  the Processor itself crashed on this path (C15's subject, F-C11-4)
+    except Exception:  # noqa  the Processor itself crashed on this path: no targets to hand over; the judge reports it
         return "processor-crash", None
     locs = [locate(lhs, nc) for nc in ncs]
     for loc in locs:
         cur = lhs
         for t, r in loc:
+            if cur is rhs:
+                # path creation stored the right-hand document and the path went on INTO it (F-C11-5): the
+                # model's targets are places of the left document
+                return "target-inside-rhs", None
             try:
                 cur = cur[r]
             except Exception:  # noqa
                 # the yielded node is not (any longer) reachable at its coordinates: partial path creation
                 return "unresolvable-target", None
-    if (not is_root and not isinstance(rhs, (dict, list)) and not docenc.is_set(rhs) and has_set(lhs)
-            and any(not isinstance(nc.node, (dict, list)) and not docenc.is_set(nc.node) for nc in ncs)):
-        return "setvalue-with-set", None      # Processor.set_value crashes (F-C11-3): not this model's subject
     enc = docenc.Encoder()
     enc.fresh_oid()
     d_s = enc.node(lhs)
@@ -249,6 +254,9 @@ def judge(case, obs):
         return "path evaluation crashed with %s" % type(e).__name__
     if not ncs:
         return None if line.startswith("(raise") else "an unmatched path was not reported: %s" % line[:60]
+    if any(inside_rhs(lhs, rhs, locate(lhs, nc)) for nc in ncs):
+        return None if line.startswith("(raise") else \
+            "a path that cannot be created was not reported: the right-hand document was merged into its own children"
     created = c05.plain(lhs)
     pol = c05.Policy((lhs_t, rhs_t, opts, None, None, None))
     r = c05.plain(rhs)
@@ -280,93 +288,44 @@ def judge(case, obs):
     return None
 
 
-def _mode(opts, k, d):
-    return (opts.get(k) or d).lower()
-
-
-def returned_result_dropped(case, obs):
-    """F-C11-1: away from the root, a merge whose result is a NEW object (a
-    `right` policy for the target's kind, or arrays=unique re-building the
-    list because a right element equals a left one) is not stored back."""
-    lhs_t, rhs_t, path, opts = case
-    if _ENV["YAMLPath"](path).is_root:
-        return False
-    r = c05.load(rhs_t)
-    if isinstance(r, dict):
-        return _mode(opts, "hashes", "deep") == "right" or _mode(opts, "aoh", "all") in ("right", "unique", "deep")
-    if isinstance(r, list):
-        return (_mode(opts, "arrays", "all") in ("right", "unique") or _mode(opts, "aoh", "all") == "right"
-                or _mode(opts, "sets", "unique") == "right")
-    if docenc.is_set(r):
-        return _mode(opts, "sets", "unique") == "right" or _mode(opts, "arrays", "all") in ("right", "unique")
-    return _mode(opts, "sets", "unique") == "right"
-
-
 def aoh_default(case, obs):
     return c05.aoh_default_governs_non_aoh((case[0], case[1], case[3], None, None, None), obs) or \
         c05._aoh_default((None, None, case[3], None, None, None)) in ("left", "right")
 
 
-def _scalar_rhs_targets(case):
-    """(is scalar rhs at a non-root path, target nodes, lhs) from the real Processor"""
+def uncreatable_segment_in_missing_path(case, obs):
+    """F-C11-5: the --mergeat path does not exist in the left document (or the
+    left document is empty) and holds a segment that path creation cannot build
+    (anything but a plain key or index: wildcard, search, anchor, slice ...).
+    Path creation (Nodes.build_next_node; Merger.merge_with for an empty
+    document, Processor._get_optional_nodes below an existing prefix) then
+    stores the right-hand document ITSELF at the first missing step and
+    evaluates the remaining segments inside it, so the right-hand document is
+    merged into its own children (a cyclic document) instead of a merge error."""
     lhs_t, rhs_t, path, opts = case
     E, C = _ENV, c05._ENV
-    rhs = c05.load(rhs_t)
-    if rhs is None or isinstance(rhs, (dict, list)) or docenc.is_set(rhs) or E["YAMLPath"](path).is_root:
-        return False, [], None
+    from yamlpath.enums import PathSegmentTypes
+    p = E["YAMLPath"](path)
+    if p.is_root or c05.load(rhs_t) is None:
+        return False
+    if all(t in (PathSegmentTypes.KEY, PathSegmentTypes.INDEX) and not (isinstance(a, str) and ":" in a)
+           for t, a in p.escaped):
+        return False
     lhs = c05.load(lhs_t)
     if lhs is None:
-        return False, [], None
+        return True
     try:
-        ncs = list(E["Processor"](C["log"], lhs).get_nodes(E["YAMLPath"](path), default_value=rhs))
-    except Exception:  # noqa
-        return False, [], None
-    return True, [nc.node for nc in ncs], lhs
-
-
-def scalar_at_multi_target(case, obs):
-    """F-C11-2: a Scalar merged at a path matching a Scalar AND a non-Scalar
-    node: Processor.set_value(path) overwrites every match"""
-    ok, nodes, _ = _scalar_rhs_targets(case)
-    if not ok:
-        return False
-    scal = [n for n in nodes if not isinstance(n, (dict, list)) and not docenc.is_set(n)]
-    return bool(scal) and len(scal) < len(nodes)
-
-
-def set_value_with_set_in_doc(case, obs):
-    """F-C11-3: a Scalar merged into a Scalar target while the left document
-    holds a Set anywhere: Processor.set_value raises KeyError"""
-    ok, nodes, lhs = _scalar_rhs_targets(case)
-    return ok and has_set(lhs) and any(not isinstance(n, (dict, list)) and not docenc.is_set(n) for n in nodes)
-
-
-def processor_path_crash(case, obs):
-    """F-C11-4: Processor.get_nodes itself raises a non-YAMLPath exception for
-    the --mergeat path on this left document (C15's defect, e.g. a search
-    segment over a list holding null)"""
-    lhs_t, rhs_t, path, opts = case
-    E, C = _ENV, c05._ENV
-    lhs = c05.load(lhs_t)
-    rhs = c05.load(rhs_t)
-    if lhs is None or rhs is None:
-        return False
-    try:
-        list(E["Processor"](C["log"], lhs).get_nodes(E["YAMLPath"](path), default_value=rhs))
-    except E["YPE"]:
-        return False
+        return not list(E["Processor"](C["log"], lhs).get_nodes(p, mustexist=True))
     except Exception:  # noqa
         return True
-    return False
 
 
-FINDING_PREDS = {"processor_path_crash": processor_path_crash, "returned_result_dropped": returned_result_dropped, "aoh_default_governs_non_aoh": aoh_default,
-                 "scalar_at_multi_target": scalar_at_multi_target,
-                 "set_value_with_set_in_doc": set_value_with_set_in_doc}
+FINDING_PREDS = {"aoh_default_governs_non_aoh": aoh_default,
+                 "uncreatable_segment_in_missing_path": uncreatable_segment_in_missing_path}
 
 LHS = ["{a: {b: 1}, k: {b: 2}}", "{a: [1, 2], k: 5}", "{a: {b: {c: 1}}, l: [{id: 1}]}", "{a: !!set {x}, k: 1}",
-       "[{a: 1}, {a: 2}]", "{a: 1}", "[]", "{}", "~", "{a: {b: [1]}, k: [2]}"]
-PATHS = ["/", "/a", "/a/b", "/k", "/*", "/x", "/x/y", "/a[0]", "/a[.=zz]", "[0]", "/l[id=1]"]
+       "[{a: 1}, {a: 2}]", "{a: 1}", "[]", "{}", "~", "{a: {b: [1]}, k: [2]}", "{a: [~, 1], k: 5}", "[[1, 2], [2], 5]"]
+PATHS = ["/", "/a", "/a/b", "/k", "/*", "/x", "/x/y", "/a[0]", "/a[.=zz]", "[0]", "/l[id=1]", "/a[.=1]"]
 RHS = ["{c: 2}", "{b: 9}", "[2, 3]", "[{id: 1, v: 2}]", "7", "!!set {y}", "{}", "~"]
 
 
@@ -423,8 +382,21 @@ def chunks(tier, seed):
 def corpus_chunks():
     yield [
         ("~", "{a: 1}", "/x", {}),                                  # fixed f991aeb
-        ("{a: [1, 2]}", "[2, 3]", "/a", {"arrays": "unique"}),      # F-C11-1
-        ("{a: {b: 1}}", "{c: 2}", "/a", {"hashes": "right"}),       # F-C11-1
+        ("{a: [1, 2]}", "[2, 3]", "/a", {"arrays": "unique"}),      # former F-C11-1 (fixed 6840572)
+        ("{a: {b: 1}}", "{c: 2}", "/a", {"hashes": "right"}),       # former F-C11-1
+        ("{a: [1, 2]}", "[2, 3]", "/a", {"arrays": "right"}),       # former F-C11-1
+        ("{l: [{id: 1}]}", "[{id: 1, v: 2}]", "/l", {"aoh": "right"}),   # former F-C11-1
+        ("{a: !!set {x}}", "!!set {y}", "/a", {"sets": "right"}),   # former F-C11-1
+        ("[[1, 2], 5]", "[2, 3]", "[0]", {"arrays": "unique"}),     # former F-C11-1, the parent is an Array
+        ("{a: {b: 1}, k: {b: 2}}", "{c: 2}", "/*", {"hashes": "right"}),  # former F-C11-1, two targets
+        ("{a: [1, 2], k: 5}", "7", "/*", {}),                       # former F-C11-2 (fixed c8dbfd9)
+        ("{a: !!set {x}, k: 5}", "7", "/*", {}),                    # former F-C11-2 (and F-C11-3)
+        ("{a: 1, k: 5}", "7", "/*", {}),                            # two Scalar targets
+        ("{a: !!set {x}, k: 1}", "7", "/k", {}),                    # former F-C11-3 (Processor fixed: ecc1034)
+        ("{a: [~, 1]}", "7", "/a[.=zz]", {}),                       # former F-C11-4 (Processor fixed: 21d5108)
+        ("{a: [~, 1]}", "7", "/a[.=1]", {}),
+        ("~", "{id: {b: '1'}}", "/*", {}),                          # F-C11-5
+        ("{a: 1}", "{id: {b: '1'}}", "/x/*", {}),                   # F-C11-5
         ("{a: {b: 1}}", "{c: 2}", "/x/y", {}),
         ("{a: {b: 1}, k: {b: 2}}", "{c: 2}", "/*", {}),
         ("{a: 1}", "{c: 2}", "/b[.=x]", {}),
